@@ -252,6 +252,46 @@ Theorem C15_release_event_never_dropped :
 Proof. exact release_never_dropped. Qed.
 Print Assumptions C15_release_event_never_dropped.
 
+(* ---- persisted mappings (opdb cgnat_mappings) and process restart: [prun] interleaves component events with
+   restarts; a restart is a fresh pool, index and session books over the same store, restoreFromOpDB replaying every
+   record in the order the store lists them ---- *)
+
+(* whatever mixture of events and restarts, the component is in a state that a history of component events reaches
+   from the freshly configured pool (keyed histories give keyed ones): every theorem above survives restarts *)
+Theorem C15_restarts_refine_component :
+  forall v c p0 f ops s l, pc_comp s = crun v c (comp_init p0) l -> forallb (keyed f) l = true ->
+  forallb (pop_keyed f) ops = true ->
+  exists cops, pc_comp (prun v c p0 s ops) = crun v c (comp_init p0) cops /\ forallb (keyed f) cops = true.
+Proof. exact prun_refines. Qed.
+Print Assumptions C15_restarts_refine_component.
+
+Theorem C15_restart_level_reverse_lookup_exact :
+  forall r p0 f ops ip port, setup repaired r = Some p0 -> forallb (pop_keyed f) ops = true ->
+  let s := pc_comp (prun repaired (effective r) p0 (pcomp_init p0) ops) in
+  match rev_lookup (cp_rev s) ip port with
+  | Some m => In (m_blk m) (blocks_of (cp_pool s) (m_sub m)) /\ covers (m_blk m) ip port = true /\
+              forall k b, In b (blocks_of (cp_pool s) k) -> covers b ip port = true -> k = m_sub m /\ b = m_blk m
+  | None => forall k b, In b (blocks_of (cp_pool s) k) -> covers b ip port = true -> exists sid, In (sid, k, b) (cp_pend s)
+  end.
+Proof. exact restart_level_exact. Qed.
+Print Assumptions C15_restart_level_reverse_lookup_exact.
+
+Theorem C15_restart_level_pool_properties :
+  forall r p0 ops, setup repaired r = Some p0 ->
+  let c := effective r in
+  let s := pc_comp (prun repaired c p0 (pcomp_init p0) ops) in
+  (forall k1 k2 b1 b2, k1 <> k2 -> In b1 (blocks_of (cp_pool s) k1) -> In b2 (blocks_of (cp_pool s) k2) ->
+     b_ip b1 = b_ip b2 -> b_end b1 < b_start b2 \/ b_end b2 < b_start b1) /\
+  (forall k b, In b (blocks_of (cp_pool s) k) ->
+     In (b_ip b) (flat_map expand (r_outside r)) /\ ~ In (b_ip b) (r_excluded r) /\
+     c_pstart c <= b_start b /\ (b_start b - c_pstart c) mod c_bs c = 0 /\
+     b_end b = b_start b + c_bs c - 1 /\ b_end b <= c_pend c) /\
+  (forall k, N.of_nat (length (blocks_of (cp_pool s) k)) <= c_max c) /\
+  (c_paired c = true -> forall k b1 b2, In b1 (blocks_of (cp_pool s) k) -> In b2 (blocks_of (cp_pool s) k) ->
+     b_ip b1 = b_ip b2).
+Proof. exact restart_level_pool_props. Qed.
+Print Assumptions C15_restart_level_pool_properties.
+
 (* ---- what the code violated before the fixes now in /repo (variant [defective] or a single missing repair) ---- *)
 
 (* Before 285c7b2: RestoreMapping accepts an unaligned block overlapping subscriber 1's block; releasing the restored subscriber
@@ -484,3 +524,17 @@ Example C15_event_level_nonvacuous :
   option_map m_sub (rev_lookup (cp_rev s) 1681915905 1040) = Some 10.
 Proof. vm_compute. repeat split. Qed.
 Print Assumptions C15_event_level_nonvacuous.
+
+(* restarts: two committed sessions, one activation in flight, a release, a restart (the in-flight block is not
+   persisted and is gone, the released one stays released), more events, a second restart *)
+Example C15_restart_nonvacuous :
+  let ops := [PEvent (CActivate 1 5 true None); PEvent (CActivate 2 6 true None); PEvent (CActivateLate 4 9 None);
+              PEvent (CRelease 2 6 []); PRestart [1; 2; 4]; PEvent (CActivate 11 12 true None);
+              PEvent (CRelease 1 5 []); PRestart [11; 1]] in
+  forallb (pop_keyed (fun sid => match sid with 2 => 6 | 1 => 5 | _ => 9 end)) ops = true /\
+  let s := prun repaired (effective ex_raw1) (pool_of repaired ex_raw1) (pcomp_init (pool_of repaired ex_raw1)) ops in
+  cp_sess (pc_comp s) = [11] /\ map fst (pc_db s) = [11] /\
+  blocks_of (cp_pool (pc_comp s)) 12 = [ {| b_ip := 1681915905; b_start := 1040; b_end := 1055 |} ] /\
+  blocks_of (cp_pool (pc_comp s)) 9 = [] /\ blocks_of (cp_pool (pc_comp s)) 5 = [].
+Proof. vm_compute. repeat split. Qed.
+Print Assumptions C15_restart_nonvacuous.
